@@ -17,7 +17,7 @@ from .world import HOOKS, pack, unpack
 
 
 class Snap:
-    __slots__ = ("blob", "ledger_len", "ec", "step", "action", "k", "inflight", "bus_len", "tag")
+    __slots__ = ("blob", "ledger_len", "ec", "step", "action", "k", "inflight", "bus_len", "bus_pre", "tag")
 
 
 class CrashEngine:
@@ -46,14 +46,22 @@ class CrashEngine:
             s.step, s.action, s.k = step_no, action[0], counter[0]
             s.inflight = action[0]
             s.bus_len = len(w.bus_log)
+            s.bus_pre = pre[0]
             counter[0] += 1
             snaps.append(s)
 
+        pre = [len(w.bus_log)]
+
+        def pre_commit(conn):  # what subscribers had been told at the instant just before this commit
+            pre[0] = len(w.bus_log)
+
         HOOKS.on_commit = on_commit
+        HOOKS.pre_commit = pre_commit
         try:
             return self.ex.apply(st, action)
         finally:
             HOOKS.on_commit = None
+            HOOKS.pre_commit = None
 
     def pick(self, st, acts, step_no):
         deliver = [a for a in acts if a[0].startswith("d:")]
@@ -123,6 +131,7 @@ class CrashEngine:
                 s.blob = pack(conn.serialize())
                 s.ledger_len, s.ec, s.step, s.action, s.k = 0, {}, -1, "start:Orchestrator.start", len(start_snaps)
                 s.inflight, s.bus_len = s.action, len(w.bus_log)
+                s.bus_pre = s.bus_len
                 start_snaps.append(s)
 
             HOOKS.on_commit = on_commit
